@@ -69,6 +69,43 @@ def check(ctx: Ctx) -> None:
                 ctx.violation('C09.i', fnr.qualname, 'the receive filter `%s` times the equivalent channel normalises to `%s`, not to the identity: '
                               'the streams of the user are not recovered' % (w.v.pretty()[:90], l.pretty()[:90]), fnr.path, fnr.lineno,
                               operand='inverts:' + label.replace(' ', '-'))
+    # ------------------------------------------------------------------ C09.j
+    ctx.rule('C09.j', 'WhiteningBD: the joint receive filter applied to the UNWHITENED channel inverts it: with newH = Wf Heq, '
+                      'big_W Heq = I as an identity of matrix terms (so the whitening filter multiplies on the channel side)', floor=1)
+    wfn = M.lookup_method(M.cls('WhiteningBD'), '_calc_receive_filter_with_whitening')
+    if wfn is None:
+        ctx.error('C09.j: WhiteningBD._calc_receive_filter_with_whitening vanished')
+    ctx.instance('C09.j', wfn.qualname)
+    wpar = [p_ for p_ in wfn.params if p_ not in ('self', 'cls')]
+    split = [(i, c) for i, st in enumerate(wfn.node.body) for c in ast.walk(st)
+             if isinstance(c, ast.Call) and norm(c.func).split('.')[-1] == 'single_matrix_to_matrix_of_matrices' and c.args]
+    if len(wpar) < 2 or not split:
+        ctx.error('C09.j: %s no longer splits one joint filter with single_matrix_to_matrix_of_matrices (cannot tell)' % wfn.qualname)
+    cx = X.Ctx()
+    itx = X.MatInterp(M, cx, M.cls('WhiteningBD'))
+    Wf, Heq = X.MT.sym('Wf'), X.MT.sym('Heq')
+    env = {wpar[0]: X.Val('mat', X.mul(Wf, Heq, cx)), wpar[1]: X.Val('mat', Wf)}
+    for p_ in wpar[2:]:
+        env[p_] = X.Val('opaque')
+    try:
+        need = {n_.id for n_ in ast.walk(split[0][1].args[0]) if isinstance(n_, ast.Name)}
+        keep = []
+        for st in reversed(wfn.node.body[:split[0][0]]):
+            tg = {n_.id for n_ in ast.walk(st) if isinstance(n_, ast.Name) and isinstance(n_.ctx, ast.Store)}
+            if tg & need:
+                keep.append(st)
+                need |= {n_.id for n_ in ast.walk(st) if isinstance(n_, ast.Name) and isinstance(n_.ctx, ast.Load)}
+        itx.block(keep[::-1], env, wfn)
+        w = itx.ev(split[0][1].args[0], env, wfn)
+        if w.kind != 'mat':
+            raise X.Unknown('the joint filter is a %s' % w.kind)
+        okx, l, r = X.proves(X.mul(w.v, Heq, cx), X.MT.identity(), cx)
+    except X.Unknown as e:
+        ctx.error('C09.j: cannot extract the matrix term of the joint filter in %s (%s): cannot tell' % (wfn.qualname, e))
+    ctx.obligation('C09.j', wfn.qualname, okx, {'filter': w.v.pretty(), 'filter_times_channel': l.pretty()})
+    if not okx:
+        ctx.violation('C09.j', wfn.qualname, 'the joint receive filter `%s` times the unwhitened channel normalises to `%s`, not to the identity'
+                      % (w.v.pretty()[:90], l.pretty()[:90]), wfn.path, split[0][1].lineno, operand='inverts-unwhitened')
     # ------------------------------------------------------------------ C09.h
     ctx.rule('C09.h', 'receive filters are formed with the PSEUDO-inverse of the effective channel: water-filling may give a stream zero power '
                       '(a zero column), for which inv/solve raise while pinv still inverts every powered stream', floor=2)
